@@ -53,6 +53,55 @@ theorem update_delivers (mi : Option Int) (u0 u : User) (hi : User.init mi = .ok
     ∃ u', u.update = .ok u' ∧ u'.adds = u.adds ++ (keep u0.maxLen (windows h).2).map (·.1) :=
   let ⟨u', e, _, a⟩ := update_rel (rel_of_run mi u0 u hi h hr); ⟨u', e, a⟩
 
+/-- `drain n` delivers exactly the first `n` samples of the queue, each with its own stamp: what is added to
+the buffer and what is appended to the timestamp deque are the two components of the same pairs. -/
+theorem drain_pairs : (n : Nat) → (q : TQ) → (u u' : User) → drain n q u = .ok u' →
+    ∃ batch : List (Nat × Rat), batch.length = n ∧ u'.adds = u.adds ++ batch.map (·.1) ∧
+      u'.timestamps = batch.foldl (fun acc p => dqAppend u.maxLen acc p.2) u.timestamps ∧
+      u'.maxLen = u.maxLen ∧ u'.collector = u.collector
+  | 0, q, u, u', h => by
+    simp only [drain, Except.ok.injEq] at h; subst h
+    exact ⟨[], rfl, by simp, rfl, rfl, rfl⟩
+  | n + 1, q, u, u', h => by
+    simp only [drain] at h
+    cases hp : q.popleft with
+    | error e => simp [hp, bind, Except.bind] at h
+    | ok r =>
+      obtain ⟨⟨x, t⟩, q'⟩ := r
+      simp only [hp, bind, Except.bind] at h
+      obtain ⟨batch, hl, ha, ht, hm, hc⟩ := drain_pairs n q' _ u' h
+      refine ⟨(x, t) :: batch, by simp [hl], ?_, ?_, hm, hc⟩
+      · simp [ha, List.append_assoc]
+      · simpa using ht
+
+/-- **A failing buffer does not unpair the timestamps.** If `add` raises in the middle of a hand-over, the
+timestamp deque has grown by exactly the stamps of the samples that did reach the buffer (one stamp per
+completed `add`, in the same order): "count added since t" keeps counting delivered samples only. -/
+theorem updateF_pairs (u u' : User) (k : Nat) (raised : Bool) (h : u.updateF k = .ok (u', raised)) :
+    ∃ batch : List (Nat × Rat), u'.adds = u.adds ++ batch.map (·.1) ∧
+      u'.timestamps = batch.foldl (fun acc p => dqAppend u.maxLen acc p.2) u.timestamps ∧
+      (raised = true → batch.length = k) := by
+  unfold User.updateF at h
+  simp only [Collector.moveData] at h
+  by_cases hk : k < u.collector.q.len
+  · simp only [hk, if_true] at h
+    cases hd : drain k u.collector.q { u with collector := { q := { maxLen := u.collector.q.maxLen } } } with
+    | error e => simp [hd, Except.map] at h
+    | ok v =>
+      simp only [hd, Except.map, Except.ok.injEq, Prod.mk.injEq] at h
+      obtain ⟨rfl, rfl⟩ := h
+      obtain ⟨batch, hl, ha, ht, _, _⟩ := drain_pairs k _ _ _ hd
+      exact ⟨batch, ha, ht, fun _ => hl⟩
+  · simp only [hk, if_false] at h
+    cases hd : drain u.collector.q.len u.collector.q
+        { u with collector := { q := { maxLen := u.collector.q.maxLen } } } with
+    | error e => simp [hd, Except.map] at h
+    | ok v =>
+      simp only [hd, Except.map, Except.ok.injEq, Prod.mk.injEq] at h
+      obtain ⟨rfl, rfl⟩ := h
+      obtain ⟨batch, _, ha, ht, _, _⟩ := drain_pairs _ _ _ _ hd
+      exact ⟨batch, ha, ht, fun hr => by simp at hr⟩
+
 /-- **ts_paired.** The timestamp deque of the `DataUser` holds, for the most recent `maxLen`
 delivered samples, the clock value read inside each sample's own `collect` — `deliveredSpec`
 is a list of `(sample, reading)` pairs taken from the collected pairs (`delivered_in_order`), its
